@@ -87,10 +87,17 @@ func (g *GettyRemoting) sendAsync(session getty.Session, msg message.RpcMessage,
 		return nil, fmt.Errorf("session is closed")
 	}
 	resp := message.NewMessageFuture(msg)
-	g.futures.Store(msg.ID, resp)
+	// only a sender that waits for the answer owns an entry of the table:
+	// responses and heartbeats carry ids of another generator and nobody
+	// would ever remove their entry
+	if callback != nil {
+		g.futures.Store(msg.ID, resp)
+	}
 	_, _, err = session.WritePkg(msg, time.Duration(0))
 	if err != nil {
-		g.futures.Delete(msg.ID)
+		if callback != nil {
+			g.futures.Delete(msg.ID)
+		}
 		log.Errorf("send message: %#v, session: %s", msg, session.Stat())
 		return nil, err
 	}
@@ -128,7 +135,12 @@ func (g *GettyRemoting) NotifyRpcMessageResponse(rpcMessage message.RpcMessage) 
 		messageFuture.Response = rpcMessage.Body
 		// todo add messageFuture.Err
 		// messageFuture.Err = rpcMessage.Err
-		messageFuture.Done <- struct{}{}
+		// never block message processing: a duplicate or late reply finds
+		// the signal already there (or nobody waiting) and is dropped
+		select {
+		case messageFuture.Done <- struct{}{}:
+		default:
+		}
 		// client.msgFutures.Delete(rpcMessage.RequestID)
 	} else {
 		log.Infof("msg: {} is not found in msgFutures.", rpcMessage.ID)
